@@ -100,6 +100,7 @@ def run_case(case):
             elif e["ev"] == "open" and isinstance(e.get("flags"), int) and e["flags"] & os.O_CREAT and not isinstance(e.get("mode"), str):
                 order.append(model.resolve(root, e["path"]))
         touched = set(order)
+        res.obs("touch", {"patterns": case["patterns"], "cone": sorted(c), "event_order": [os.path.relpath(x, root) for x in order][:40]})
         d = gen.snap_diff(before, after)
         changed_fs = {os.path.join(root, p) for p in d["added"] + d["touched"] + d["modified"] if not p.startswith(".gwf/")}
         if touched - want_paths or changed_fs - want_paths:
